@@ -8,7 +8,7 @@ from . import core, gen
 ALLV = '{"h264", "h265", "av1", "vp9"}'
 
 
-def _mc(consts, rel='none', facets=None, module='MCMuxide', invariants=('FileOK', 'TypeOK'),
+def _mc(consts, rel='none', facets=None, module='MCMuxide', invariants=('FileOK', 'TypeOK', 'TwoPassStable'),
         properties=('StutterOnReject', 'FinishOnce'), workers=6, spec='Spec'):
     return dict(consts=consts, rel=rel, facets=facets, module=module, invariants=invariants,
                 properties=properties, workers=workers, spec=spec)
